@@ -48,7 +48,7 @@ type Ev struct {
 	Taken    bool // branch events: the edge taken
 	Base     RV   // field load/store events: the (resolved) struct pointer
 	Field    *types.Var
-	Note     string // free-form payload (facts emitted by probes)
+	Note     string       // free-form payload (facts emitted by probes)
 	Elems    map[int][]RV // call events: resolved elements of arguments that are slice literals ([]T{a, b})
 }
 
